@@ -422,7 +422,8 @@ func runC07(rc *fw.RunCtx) {
 				ctxs[k], cancels[k] = context.WithCancel(context.Background())
 			}
 			base := s.Step
-			for j, d := range iv.Stale {
+			for _, j := range sortedIntKeys(iv.Stale) {
+				d := iv.Stale[j]
 				j := j
 				k := k
 				s.AtStep(base+d, fmt.Sprintf("stale-cancel(ctx%d)", j), func() {
